@@ -74,6 +74,8 @@ def heap_value(heap):
 
 def repair_budget_jumps(n, k, heap):
     heap = heap_value(heap)
+    if heap > 1e6:
+        heap = 1e4      # "no limit" is only used where few error sites keep the candidate product small; a loop that never ends must still hit the budget
     return 400 * (n + k + 2) * (k + 2) + 60 * int(min(heap, 1e6)) * (n // max(k, 1) + 4) + 20000
 
 
